@@ -75,148 +75,203 @@ def _send_kind(ev):
     return "other"
 
 
+_PUB_SRC = '''
+from indi.device import Driver, properties
+
+
+class DevA(Driver):
+    g1 = properties.Group(
+        "GRP1",
+        vectors=dict(
+            t=properties.TextVector("V1", elements=dict(a=properties.Text("A", default="a0"), b=properties.Text("B", default="b0"))),
+            n=properties.NumberVector("V2", elements=dict(a=properties.Number("A", default=1.0))),
+        ),
+    )
+    g2 = properties.Group(
+        "GRP2",
+        vectors=dict(s=properties.SwitchVector("V3", rule="AtMostOne", elements=dict(c=properties.Switch("C", default="On"), d=properties.Switch("D")))),
+    )
+'''
+
+
+def _sent(pa):
+    """What the driver handed to send_message on a path: list of (kind, class name, kwargs dict, event);
+    kind is 'def' (definition or delProperty), 'set', 'none' (a suppressed update) or 'other'."""
+    out = []
+    for e in pa.calls(method="send_message"):
+        callee = e.data["callee"]
+        if not (isinstance(callee, Fn) and isinstance(callee.self_val, Obj) and callee.self_val.label.startswith("driver:")):
+            continue
+        a_ = e.data["args"][0] if e.data["args"] else None
+        if isinstance(a_, Const) and a_.v is None:
+            out.append(("none", None, {}, e))
+        elif isinstance(a_, Term) and a_.op == "call" and isinstance(a_.args[0], Cls):
+            n_ = a_.args[0].ci.name
+            kind = "def" if n_.startswith("Def") or n_ == "DelProperty" else ("set" if n_.startswith("Set") else "other")
+            out.append((kind, n_, dict(a_.args[2]), e))
+        else:
+            out.append(("other", show(a_)[:40] if a_ is not None else None, {}, e))
+    return out
+
+
+def _pub_world(it, p):
+    from .driverworld import _reachable_objs, build_drivers
+    d = build_drivers(it, p, names=(("DevA", "DEVA"),), src=_PUB_SRC, router=Obj(None, label="<router>"))["DEVA"]
+    return d, {o.label: o for o in _reachable_objs(d)}
+
+
+def _pub_pol(fi, node):
+    m = fi.module.name
+    if m.startswith(INSTANCE_PKG):
+        return fi.name != "raise_event"
+    if m == "indi.message.checks":
+        return True
+    return fi.kind == "getter" and m.startswith("indi.device")
+
+
+def _child_values(kw):
+    ch = kw.get("children")
+    out = {}
+    for x in (ch.items if isinstance(ch, (Lst, Tup)) else []):
+        if isinstance(x, Term) and x.op == "call" and isinstance(x.args[0], Cls):
+            k2 = dict(x.args[2])
+            out[show(k2.get("name")).strip("'")] = k2.get("value")
+    return out
+
+
 def rule_pub(ctx):
+    """Every public mutator of the driver's property objects publishes the *new* state: the operation is evaluated on a
+    driver constructed from an analysis-only definition (two groups, three properties), and what the driver hands to
+    send_message afterwards must be the owning property's update carrying the new value / state.  A completeness scan
+    makes sure no function outside these mutators (and their private helpers) stores an authoritative field."""
     p = ctx.p
     _init(p)
-    n = 0
-    for fi in p.functions:
-        if not fi.module.name.startswith(INSTANCE_PKG):
+    E = INSTANCE_PKG + ".elements."
+    ops = [
+        # (label, object label, setter owner class, property, value, expected message class, check(kwargs) -> problem or None)
+        ("text value", "el:DEVA.V1.A", E + "Element", "value", Const("new"), "SetTextVector", lambda kw: None if show(_child_values(kw).get("A")) == "'new'" and show(_child_values(kw).get("B")) == "'b0'" else f"parts {dict((k, show(v)) for k, v in _child_values(kw).items())}"),
+        ("number value", "el:DEVA.V2.A", E + "Element", "value", Const(2.5), "SetNumberVector", lambda kw: None if "2.5" in show(_child_values(kw).get("A")) else f"parts {dict((k, show(v)) for k, v in _child_values(kw).items())}"),
+        ("switch value", "el:DEVA.V3.D", E + "Element", "value", Const("On"), "SetSwitchVector", lambda kw: None if {k: show(v) for k, v in _child_values(kw).items()} == {"C": "'Off'", "D": "'On'"} else f"parts {dict((k, show(v)) for k, v in _child_values(kw).items())}"),
+        ("switch bool_value", "el:DEVA.V3.D", E + "Switch", "bool_value", Const(True), "SetSwitchVector", lambda kw: None if {k: show(v) for k, v in _child_values(kw).items()} == {"C": "'Off'", "D": "'On'"} else f"parts {dict((k, show(v)) for k, v in _child_values(kw).items())}"),
+        ("state", "vec:DEVA.V1", INSTANCE_PKG + ".vectors.Vector", "state_", Const("Alert"), "SetTextVector", lambda kw: None if show(kw.get("state")) == "'Alert'" else f"state {show(kw.get('state'))}"),
+        ("selected_value", "vec:DEVA.V3", INSTANCE_PKG + ".vectors.SwitchVector", "selected_value", Const("D"), "SetSwitchVector", lambda kw: None if {k: show(v) for k, v in _child_values(kw).items()} == {"C": "'Off'", "D": "'On'"} else f"parts {dict((k, show(v)) for k, v in _child_values(kw).items())}"),
+        ("selected_values", "vec:DEVA.V3", INSTANCE_PKG + ".vectors.SwitchVector", "selected_values", Lst([Const("D")]), "SetSwitchVector", lambda kw: None if {k: show(v) for k, v in _child_values(kw).items()} == {"C": "'Off'", "D": "'On'"} else f"parts {dict((k, show(v)) for k, v in _child_values(kw).items())}"),
+    ]
+    covered = set()
+    for label, target, owner, prop, value, want_cls, chk in ops:
+        setter = p.cls(owner).find_setter(prop)
+        if setter is None:
+            ctx.undecided("C01.PUB", f"{owner.rsplit('.', 1)[-1]}.{prop}", "public setter not found", ci=p.cls(owner))
             continue
+        covered.add(setter)
+
+        def run(it: Interp):
+            d, by = _pub_world(it, p)
+            o = by.get(target)
+            if o is None:
+                raise Undecided(f"constructed driver has no {target}")
+            return it.run_function(Fn(o.cls.find_setter(prop), o), [value], {})
+
+        paths = explore(p, run, {"inline": _pub_pol, "max_depth": 12})
+        ctx.paths_enumerated += len(paths)
+        inst = f"{setter.short}[{label}]"
+        if len(paths) != 1 or paths[0].outcome != "return":
+            ctx.undecided("C01.PUB", inst, f"not decided by constant evaluation ({len(paths)} paths, outcome {paths[0].outcome if paths else None})", fi=setter)
+            continue
+        pa = paths[0]
+        stores = [e for e in pa.events if e.kind == "store" and e.data.get("attr") in FIELDS and isinstance(e.data["base"], Obj)]
+        sent = _sent(pa)
+        last = max((e.idx for e in stores), default=-1)
+        after = [(k, n_, kw) for k, n_, kw, e in sent if e.idx > last and k == "set"]
+        problem = None
+        if not stores:
+            problem = "the assignment stores nothing"
+        elif not after:
+            problem = f"returns without publishing an update after the last store (sent: {[(k, n_) for k, n_, _, _ in sent]}): clients keep the old state"
+        else:
+            k, n_, kw = after[-1]
+            if n_ != want_cls or show(kw.get("device")) != "'DEVA'" or show(kw.get("name")).strip("'") != target.split(".")[1]:
+                problem = f"publishes {n_}(device={show(kw.get('device'))}, name={show(kw.get('name'))}) instead of the owning property's {want_cls}"
+            else:
+                w = chk(kw)
+                if w:
+                    problem = f"the published update does not carry the new state: {w}"
+        ctx.check(problem is None, "C01.PUB", inst, f"publishes {want_cls} carrying the new state after the last store", problem or "", fi=setter, text=f"unpublished:{label}")
+    # completeness: authoritative fields are stored only by constructors, the documented silent reset_* functions, element
+    # enabling, and by the mutators above or functions they reach
+    names_reached = set()
+    todo = [s_ for s_ in covered]
+    pkg = [fi for fi in p.functions if fi.module.name.startswith(INSTANCE_PKG)]
+    byname = {}
+    for fi in pkg:
+        byname.setdefault(fi.name, []).append(fi)
+    seen = set()
+    while todo:
+        fi = todo.pop()
+        if fi in seen:
+            continue
+        seen.add(fi)
+        for n_ in ast.walk(fi.node):
+            nm = n_.func.attr if isinstance(n_, ast.Call) and isinstance(n_.func, ast.Attribute) else (n_.attr if isinstance(n_, ast.Attribute) and isinstance(n_.ctx, ast.Store) else None)
+            for g in byname.get(nm, []) if nm else []:
+                todo.append(g)
+    n = 0
+    for fi in pkg:
         st = _stores(fi)
         if not st:
             continue
         n += 1
         key = (fi.cls.name if fi.cls else None, fi.name)
-        fields = sorted({f for _, f in st})
         if key in EXEMPT and not (key == ("Element", "enabled") and fi.kind != "setter"):
             ctx.holds("C01.PUB", fi.short, f"exempt: {EXEMPT[key]}", fi=fi)
-            continue
-        paths = run_method(p, fi, opts={"max_for": 2})
-        ctx.paths_enumerated += len(paths)
-        bad = False
-        for pa in paths:
-            if pa.outcome != "return":
-                continue
-            stores = [e for e in pa.events if e.kind == "store" and e.data.get("attr") in FIELDS]
-            if not stores:
-                continue
-            if any(e.kind == "loop-enter" and e.data["symbolic"] and e.data["n"] == 0 for e in pa.events):
-                continue  # nothing to publish for an empty collection; the >=1-iteration paths carry the obligation
-            last = max(e.idx for e in stores)
-            kinds = [(_send_kind(e), e) for e in pa.events if e.idx > last and _send_kind(e)]
-            have = {k for k, _ in kinds}
-            need = {"def", "set"} if F_ENABLED in fields else {"set"}
-            if not need <= have:
-                ctx.violated("C01.PUB", fi.short, f"a path stores {fields} and returns without publishing {sorted(need - have)}: clients keep the old state", fi=fi, text=f"unpublished:{fields}:{sorted(need - have)}", witness=path_text(pa, 8))
-                bad = True
-        if not bad:
-            ctx.holds("C01.PUB", fi.short, f"every path storing {fields} publishes afterwards", fi=fi)
+        elif fi in seen or (fi.kind == "setter" and fi.name == "enabled"):
+            ctx.holds("C01.PUB", fi.short, "reached only through a publishing mutator", fi=fi)
+        else:
+            ctx.violated("C01.PUB", fi.short, f"stores {sorted({f_ for _, f_ in st})} but is neither a publishing mutator, one of its helpers, nor a documented silent function: clients are never told", fi=fi, text=f"unpublished-store:{fi.name}")
     ctx.floor("C01.PUB", "functions storing authoritative fields", n, 5)
-    # apply_rule's only callers: Switch.check_value <- value setter (publishes)
-    callers = []
-    for fi in p.functions:
-        for node in walk_no_nested(fi.node):
-            if isinstance(node, ast.Call) and isinstance(node.func, ast.Attribute) and node.func.attr == "apply_rule":
-                callers.append(fi)
-    ok = bool(callers) and all(c.name == "check_value" and c.cls is not None and c.cls.name == "Switch" for c in callers)
-    cv_callers = []
-    for fi in p.functions:
-        if not fi.module.name.startswith("indi.device"):
-            continue
-        for node in walk_no_nested(fi.node):
-            if isinstance(node, ast.Call) and isinstance(node.func, ast.Attribute) and node.func.attr == "check_value" and fi.module.name.startswith(INSTANCE_PKG):
-                cv_callers.append(fi)
-    ok2 = all((c.kind == "setter" and c.name == "value") or c.name == "reset_value" for c in cv_callers)
-    ctx.check(ok and ok2, "C01.PUB", "apply_rule callers", f"apply_rule <- {[c.short for c in callers]}; check_value <- {sorted({c.short for c in cv_callers})}", f"the switch rule function (which stores _value silently) is reachable from {[c.short for c in callers if c.name != 'check_value']} / check_value from {[c.short for c in cv_callers]}, not only from the publishing setter", fi=callers[0] if callers else None, text="apply_rule-callers")
 
 
 def rule_order(ctx):
+    """Enabling / disabling a property or a group: the flag is stored, then every affected property is re-announced -
+    definition (or delProperty) first, then its update - and the messages reflect the new flag."""
     p = ctx.p
     _init(p)
     vec = p.cls(f"{INSTANCE_PKG}.vectors.Vector")
     grp = p.cls(f"{INSTANCE_PKG}.group.Group")
-    for ci, looped in ((vec, False), (grp, True)):
+    cases = [
+        ("vector off", "vec:DEVA.V1", vec, [False], [("def", "DelProperty", "V1"), ("none", None, None)]),
+        ("vector off then on", "vec:DEVA.V1", vec, [False, True], [("def", "DelProperty", "V1"), ("none", None, None), ("def", "DefTextVector", "V1"), ("set", "SetTextVector", "V1")]),
+        ("group off", "grp:GRP1", grp, [False], [("def", "DelProperty", "V1"), ("none", None, None), ("def", "DelProperty", "V2"), ("none", None, None)]),
+        ("group off then on", "grp:GRP1", grp, [False, True], [("def", "DelProperty", "V1"), ("none", None, None), ("def", "DelProperty", "V2"), ("none", None, None), ("def", "DefTextVector", "V1"), ("set", "SetTextVector", "V1"), ("def", "DefNumberVector", "V2"), ("set", "SetNumberVector", "V2")]),
+        ("other group untouched", "grp:GRP2", grp, [False], [("def", "DelProperty", "V3"), ("none", None, None)]),
+    ]
+    for label, target, ci, values, want in cases:
         f = ci.find_setter("enabled")
         if f is None:
             raise Undecided(f"{ci.name}.enabled setter not found")
-        paths = run_method(p, f, opts={"max_for": 2})
-        ctx.paths_enumerated += len(paths)
-        bad = False
-        saw2 = False
-        for pa in paths:
-            if pa.outcome != "return":
-                ctx.violated("C01.ORDER", f.short, "the enabled setter can raise by itself", fi=f, text="raises")
-                bad = True
-                continue
-            st = [e for e in pa.events if e.kind == "store" and e.data.get("attr") == F_ENABLED]
-            sends = [(_send_kind(e), e) for e in pa.events if _send_kind(e)]
-            if len(st) != 1 or show(st[0].data["value"]) != "value":
-                ctx.violated("C01.ORDER", f.short, "the flag is not stored exactly once from the assigned value", fi=f, text="store")
-                bad = True
-                continue
-            if any(e.idx < st[0].idx for _, e in sends):
-                ctx.violated("C01.ORDER", f.short, "a message is rendered/sent before the flag is stored (it reflects the old state)", fi=f, text="send-before-store")
-                bad = True
-            rend = [e for e in pa.events if e.kind == "call" and (is_call(e.data["term"], method="to_def_message") or is_call(e.data["term"], method="to_set_message"))]
-            if any(e.idx < st[0].idx for e in rend):
-                ctx.violated("C01.ORDER", f.short, "a message is rendered before the flag is stored", fi=f, text="render-before-store")
-                bad = True
-            if not looped:
-                seq = [k for k, _ in sends]
-                if seq != ["def", "set"]:
-                    ctx.violated("C01.ORDER", f.short, f"messages are sent in order {seq}, expected definition (or delProperty) then update", fi=f, text=f"order:{seq}")
-                    bad = True
-                else:
-                    for k, e in sends:
-                        recv = e.data["args"][0].args[0]
-                        if not (isinstance(recv, Fn) and show(recv.self_val) == "self"):
-                            ctx.violated("C01.ORDER", f.short, "the published messages are not this vector's", fi=f, text="receiver")
-                            bad = True
+
+        def run(it: Interp):
+            from .common import public_get
+            d, by = _pub_world(it, p)
+            if target.startswith("grp:"):
+                owners = [o for o in by.values() if o.cls is not None and grp in o.cls.mro and show(public_get(it, o, "name")).strip("'") == target[4:]]
+                o = owners[0] if len(owners) == 1 else None
             else:
-                enters = [e for e in pa.events if e.kind == "loop-enter"]
-                if len(enters) != 1 or "self._vectors" not in show(enters[0].data["iterable"]):
-                    ctx.violated("C01.ORDER", f.short, "the group setter does not iterate over all of its vectors", fi=f, text="loop")
-                    bad = True
-                    continue
-                exits = [e for e in pa.events if e.kind == "loop-exit"]
-                if exits and exits[0].data["how"] != "exhausted":
-                    ctx.violated("C01.ORDER", f.short, "the loop over the group's vectors stops early", fi=f, text="early-exit")
-                    bad = True
-                nit = enters[0].data["n"]
-                if nit == 2:
-                    saw2 = True
-                for i in range(nit):
-                    evs = [(k, e) for k, e in sends if any(c[0] == "loop" and c[2] == i for c in e.ctx)]
-                    seq = [k for k, _ in evs]
-                    if seq != ["def", "set"]:
-                        ctx.violated("C01.ORDER", f.short, f"per vector the group sends {seq}, expected definition then update", fi=f, text=f"order:{seq}")
-                        bad = True
-                    conds = [e for e in pa.assumes() if any(c[0] == "loop" and c[2] == i for c in e.ctx)]
-                    if conds:
-                        ctx.violated("C01.ORDER", f.short, f"publication of a vector is conditional on {show(conds[0].data['cond'])[:60]}", fi=f, text="conditional")
-                        bad = True
-                    for k, e in evs:
-                        recv = e.data["args"][0].args[0]
-                        owner = recv.self_val if isinstance(recv, Fn) else (recv.args[0] if isinstance(recv, Term) and recv.op == "attr" else None)
-                        if not (isinstance(owner, Term) and owner.op == "val" and owner.args[1] == i and "self._vectors" in show(owner.args[0])):
-                            ctx.violated("C01.ORDER", f.short, "the message sent in an iteration is not the iteration's vector's", fi=f, text="receiver")
-                            bad = True
-        if looped and not saw2:
-            ctx.undecided("C01.ORDER", f.short, "two-iteration path not explored", fi=f)
-            bad = True
-        if not bad:
-            ctx.holds("C01.ORDER", f.short, "store, then definition/delProperty, then update" + (" for every vector of the group" if looped else ""), fi=f)
-    # the state setter validates and stores the assigned state
-    f = vec.find_setter("state_")
-    paths = run_method(p, f)
-    ok = True
-    for pa in paths:
-        if pa.outcome != "return":
+                o = by.get(target)
+            if o is None:
+                raise Undecided(f"constructed driver has no {target}")
+            for v in values:
+                it.run_function(Fn(o.cls.find_setter("enabled"), o), [Const(v)], {})
+            return Const(None)
+
+        paths = explore(p, run, {"inline": _pub_pol, "max_depth": 12})
+        ctx.paths_enumerated += len(paths)
+        inst = f"{f.short}[{label}]"
+        if len(paths) != 1 or paths[0].outcome != "return":
+            ctx.undecided("C01.ORDER", inst, f"not decided by constant evaluation ({len(paths)} paths)", fi=f)
             continue
-        st = [e for e in pa.events if e.kind == "store" and e.data.get("attr") == F_STATE]
-        if len(st) != 1 or not (mentions(st[0].data["value"], lambda t: isinstance(t, Term) and t.op == "param" and t.args[0] == "value")):
-            ok = False
-    ctx.check(ok, "C01.ORDER", f.short, "stores the assigned state", "the state setter does not store the assigned state", fi=f, text="state-store")
+        got = [(k, n_, show(kw.get("name")).strip("'") if kw else None) for k, n_, kw, _ in _sent(paths[0])]
+        ctx.check(got == want, "C01.ORDER", inst, "store, then definition/delProperty and update of every affected property, reflecting the new flag", f"the driver sends {got}, expected {want} (definition or delProperty first, then the update, for every property concerned, reflecting the new flag)", fi=f, text=f"order:{label}")
 
 
 SYN_SRC = '''
